@@ -105,16 +105,35 @@ def main():
 
     # ---- B + C: correspondence and property oracle
     ctx.driver = Driver()
+
+    def guarded(fn, *a):
+        """Safety net: an exception escaping from the implementation (innermost frames inside $COXETER_REPO) that
+        the module did not anticipate is a failure of the last registered case, not an infrastructure error."""
+        try:
+            fn(*a)
+        except InfraError:
+            raise
+        except Exception as e:
+            tb = traceback.extract_tb(e.__traceback__)
+            repo_frames = [f for f in tb if os.path.realpath(f.filename).startswith(os.path.realpath(common.REPO) + os.sep)]
+            if not repo_frames:
+                raise
+            last = repo_frames[-1]
+            ctx.fail("%s:unexpected-exception:%s@%s" % (pid, type(e).__name__, last.name),
+                     "the implementation raised %s in %s (%s:%d), which no check on the unchanged tree does"
+                     % (type(e).__name__, last.name, os.path.basename(last.filename), last.lineno),
+                     getattr(ctx, "last_case", None), "".join(traceback.format_exception_only(type(e), e)).strip())
+
     try:
         if replay_case is not None:
-            mod.replay(ctx, replay_case)
+            guarded(mod.replay, ctx, replay_case)
         else:
-            mod.run(ctx)
+            guarded(mod.run, ctx)
             if (ctx.disagreements or ctx.obligation_breaks) and not ctx.failures:
                 # widen the search for a concrete failing input
                 ctx.widen = 10
                 ctx.count("widened_search", 1)
-                mod.run(ctx)
+                guarded(mod.run, ctx)
     finally:
         ctx.driver.close()
 
